@@ -142,7 +142,7 @@ def main():
                 continue
             open(os.path.join(root, rel), "w").write(new)
             env = dict(os.environ, PYTHONPATH=os.path.join(root, "Lib"))
-            t = subprocess.run("/venv/bin/python -m pytest -x -q -p no:cacheprovider -n 16 --timeout=600 /repo/tests 2>&1 | tail -1", shell=True, capture_output=True, text=True, env=env, cwd=root)
+            t = subprocess.run("/venv/bin/python -m pytest -x -q -p no:cacheprovider -n 16 --timeout=600 tests 2>&1 | tail -1", shell=True, capture_output=True, text=True, env=env, cwd="/repo")
             last = t.stdout.strip()
             survived = last.startswith("1148 passed")
             rec = {"k": k, "file": rel, "line": s.lineno, "kind": s.kind, "desc": s.desc, "suite": last[:60], "survived": survived}
